@@ -6,20 +6,25 @@ use std::panic::{catch_unwind, AssertUnwindSafe};
 
 mod util;
 mod hashops;
+mod treeops;
 
 pub struct Ctx {
     pub hash: hashops::HashCtx,
+    pub tree: treeops::TreeCtx,
 }
 
 impl Ctx {
     fn new() -> Self {
-        Ctx { hash: hashops::HashCtx::new() }
+        Ctx { hash: hashops::HashCtx::new(), tree: treeops::TreeCtx::new() }
     }
     fn exec(&mut self, w: &[&str]) -> String {
         if w.is_empty() {
             return "bad-op".into();
         }
         if let Some(r) = self.hash.exec(w) {
+            return r;
+        }
+        if let Some(r) = self.tree.exec(w) {
             return r;
         }
         "bad-op".into()
